@@ -72,7 +72,7 @@ def run(ck):
             if not a:
                 if p.ret()[1] != '-EEAV_IDN_ERROR': extra.append(f'path without is_ascii_domain returns {p.ret()[1]}')
                 continue
-            out = conv_output(conv[0])
+            out = conv_output(conv[-1])          # the conversion whose output is used (a retry makes a second call)
             got.add(trace(p, out, f'({out} + strlen#1)', p.events.index(a[0]), p.ret()[1]))
         only_ref = sorted(ref - got); only_got = sorted(got - ref)
         r1.instance(k + ':is_utf8_domain', ok=not only_ref and not only_got, wclass='pipeline-differs',
